@@ -140,6 +140,56 @@ def ref_decode(raw):
     return t, wits
 
 
+# ---- output scripts of library-built outputs, written independently from the LBRY/Bitcoin script description:
+# ---- a data push is <len> for len < 76, 4c <len8>, 4d <len16le>, 4e <len32le>; never an OP_N shortcut
+def ref_push(data):
+    n = len(data)
+    if n < 0x4c:
+        return bytes([n]) + data
+    if n <= 0xff:
+        return b'\x4c' + bytes([n]) + data
+    if n <= 0xffff:
+        return b'\x4d' + struct.pack('<H', n) + data
+    return b'\x4e' + struct.pack('<I', n) + data
+
+
+_P2PKH = [0x76, 0xa9, 'pubkey_hash', 0x88, 0xac]
+_P2SH = [0xa9, 'script_hash', 0x87]
+_CLAIM = [0xb5, 'claim_name', 'claim', 0x6d, 0x75]
+_SUPPORT = [0xb6, 'claim_name', 'claim_id', 0x6d, 0x75]
+_SUPPORT_DATA = [0xb6, 'claim_name', 'claim_id', 'support', 0x6d, 0x6d]
+_UPDATE = [0xb7, 'claim_name', 'claim_id', 'claim', 0x6d, 0x6d]
+REF_TEMPLATES = {
+    'pay_pubkey_full': ['pubkey', 0xac],
+    'pay_pubkey_hash': _P2PKH,
+    'pay_script_hash': _P2SH,
+    'pay_script_hash+segwit': [0x00, 'script_hash'],
+    'return_data': [0x6a, 'data'],
+    'claim_name+pay_pubkey_hash': _CLAIM + _P2PKH,
+    'claim_name+pay_script_hash': _CLAIM + _P2SH,
+    'support_claim+pay_pubkey_hash': _SUPPORT + _P2PKH,
+    'support_claim+pay_script_hash': _SUPPORT + _P2SH,
+    'support_claim+data+pay_pubkey_hash': _SUPPORT_DATA + _P2PKH,
+    'support_claim+data+pay_script_hash': _SUPPORT_DATA + _P2SH,
+    'update_claim+pay_pubkey_hash': _UPDATE + _P2PKH,
+    'update_claim+pay_script_hash': _UPDATE + _P2SH,
+}
+
+
+def ref_script(template, values):
+    """values: field -> bytes"""
+    return b''.join(bytes([op]) if isinstance(op, int) else ref_push(values[op]) for op in REF_TEMPLATES[template])
+
+
+def lib_output(amount, script_hex, tpl):
+    """the Output as a library user builds it: from template values when the case has them, else from bytes"""
+    if tpl:
+        by_name = {t.name: t for t in OutputScript.templates}
+        vals = {k: bytes.fromhex(v) for k, v in tpl['values'].items()}
+        return Output(amount, OutputScript(template=by_name[tpl['template']], values=vals))
+    return Output(amount, OutputScript(bytes.fromhex(script_hex)))
+
+
 def ref_txid(t):
     return sha256(sha256(ref_encode(t)))[::-1].hex()
 
@@ -187,7 +237,7 @@ def _touch(tx):
         pass
 
 
-def impl_build(t):
+def impl_build(t, tpls=None):
     """assemble the transaction through the library API and read .raw / .id"""
     try:
         tx = Transaction(version=t['version'], locktime=t['locktime'])
@@ -196,7 +246,8 @@ def impl_build(t):
             h, scr = bytes.fromhex(h), bytes.fromhex(scr)
             ref = TXORef(TXRefImmutable.from_hash(h, -1), idx)
             ins.append(Input(ref, scr if h == NULL32 else InputScript(scr), seq))
-        outs = [Output(a, OutputScript(bytes.fromhex(scr))) for a, scr in t['outs']]
+        tpls = tpls or [None] * len(t['outs'])
+        outs = [lib_output(a, scr, tpl) for (a, scr), tpl in zip(t['outs'], tpls)]
         # staged assembly with raw/id read in between: the library's own cache invalidation (_reset) is part of
         # what makes the final raw/id right
         _touch(tx)
@@ -422,29 +473,37 @@ def glen(rng, big_ok):
     return rng.randrange(0, 120)
 
 
+SMALL_PUSH = [b'', b'\x00', b'\x01', b'\x02', b'\x05', b'\x0f', b'\x10', b'\x11', b'\x4b', b'\x80', b'\x81', b'\xff',
+              b'\x01\x01', b'\x10\x00']
+
+
 def g_out_script(rng, big_ok):
-    """every output script kind: each template in OutputScript.templates filled through the library's own
-    generator, plus opaque bytes and the empty script; data lengths across the push-data and compact-size boundaries"""
-    from lbry.wallet.script import PUSH_SINGLE
-    choices = list(OutputScript.templates) + ['opaque', 'opaque', 'empty']
-    tpl = rng.choice(choices)
+    """every output script kind: each template of OutputScript.templates (the script bytes come from the independent
+    ref_script; the library builds the same output from the template VALUES), plus opaque bytes and the empty
+    script; data lengths across the push-data and compact-size boundaries, one-byte elements 0x00..0x11/0x80/0xff.
+    returns (kind, script bytes, template description or None)"""
+    choices = sorted(REF_TEMPLATES) + ['opaque', 'opaque', 'empty']
+    name = rng.choice(choices)
     blob = rbytes(rng, glen(rng, big_ok))
-    if tpl == 'empty':
-        return 'empty', b''
-    if tpl == 'opaque':
-        return 'opaque', blob
+    if name == 'empty':
+        return 'empty', b'', None
+    if name == 'opaque':
+        return 'opaque', blob, None
+    if rng.random() < 0.12:
+        blob = rng.choice(SMALL_PUSH)
     values = {}
-    for op in tpl.opcodes:
-        if isinstance(op, PUSH_SINGLE):
-            if op.name in ('claim', 'support', 'data'):
-                values[op.name] = blob
-            elif op.name == 'claim_name':
-                values[op.name] = rbytes(rng, rng.choice([1, 4, 75, 76, 255]))
-            elif op.name == 'pubkey':
-                values[op.name] = rbytes(rng, rng.choice([33, 65]))
-            else:                       # pubkey_hash, script_hash, claim_id
-                values[op.name] = rbytes(rng, 20)
-    return tpl.name, OutputScript(template=tpl, values=values).source
+    for op in REF_TEMPLATES[name]:
+        if isinstance(op, int):
+            continue
+        if op in ('claim', 'support', 'data'):
+            values[op] = blob
+        elif op == 'claim_name':
+            values[op] = rng.choice(SMALL_PUSH[1:]) if rng.random() < 0.12 else rbytes(rng, rng.choice([1, 4, 75, 76, 255]))
+        elif op == 'pubkey':
+            values[op] = rbytes(rng, rng.choice([33, 65]))
+        else:                       # pubkey_hash, script_hash, claim_id
+            values[op] = rbytes(rng, 20)
+    return name, ref_script(name, values), {'template': name, 'values': {k: v.hex() for k, v in values.items()}}
 
 
 def g_in_script(rng, big_ok):
@@ -488,7 +547,7 @@ def gen_tx(rng, size_class):
         n_in, n_out = rng.choice([1, 1, 2, 3, 5]), rng.choice([0, 1, 1, 2, 3, 4])
     big_slot = rng.randrange(n_in + n_out) if size_class == 'big' else -1
     kinds = set()
-    ins, outs = [], []
+    ins, outs, tpls = [], [], []
     for k in range(n_in):
         kind, s = g_in_script(rng, big_slot == k)
         if big_slot == k and rng.random() < 0.6:
@@ -498,14 +557,15 @@ def gen_tx(rng, size_class):
         kinds.add('in:' + kind)
         ins.append([g_hash(rng).hex(), g32(rng), s.hex(), g32(rng)])
     for k in range(n_out):
-        kind, s = g_out_script(rng, big_slot == n_in + k)
+        kind, s, tpl = g_out_script(rng, big_slot == n_in + k)
         if big_slot == n_in + k and rng.random() < 0.6:
-            kind, s = 'opaque', rbytes(rng, rng.choice(LEN_BIG))
+            kind, s, tpl = 'opaque', rbytes(rng, rng.choice(LEN_BIG)), None
         if size_class == 'many' and n_out > 20 and len(s) > 300:
-            s = s[:rng.choice([0, 25, 252, 253])]
+            s, tpl = s[:rng.choice([0, 25, 252, 253])], None
         kinds.add('out:' + kind)
         outs.append([g64(rng), s.hex()])
-    return {'version': g32(rng), 'locktime': g32(rng), 'ins': ins, 'outs': outs}, kinds
+        tpls.append(tpl)
+    return {'version': g32(rng), 'locktime': g32(rng), 'ins': ins, 'outs': outs}, kinds, tpls
 
 
 WIT_LEN = [0, 1, 33, 71, 72, 73, 252, 253, 254, 300, 519, 520, 521, 522, 600, 1000, 3600]
@@ -650,11 +710,14 @@ def saturated(run):
     return len(run.violations) >= 20
 
 
-def run_build(run, model, t, kind, kinds=()):
+def run_build(run, model, t, kind, kinds=(), tpls=None):
     if saturated(run):
         return
     case = {'op': 'build', 'tx': t, 'kind': kind}
-    built, txobj = impl_build(t)
+    if tpls and any(tpls):
+        case['out_tpl'] = tpls            # outputs built by the library from template values, scripts in tx by ref_script
+        run.count('build:outputs-from-template-values', sum(1 for x in tpls if x))
+    built, txobj = impl_build(t, tpls)
     mbuilt = model.call('build', tx=t)
     ok_range = in_range(t)
     nbytes = len(built['raw']) // 2 if isinstance(built['raw'], str) else 0
@@ -690,6 +753,12 @@ def run_build(run, model, t, kind, kinds=()):
     parsed = impl_observe(raw)
     bad = monitor_build(t, built, parsed)
     if bad:
+        if tpls and any(tpls) and txobj is not None:
+            wrong = [k for k, o in enumerate(txobj.outputs) if o.script.source.hex() != t['outs'][k][1]]
+            if wrong:
+                bad += (f'; output(s) {wrong} built by the library from template values have script '
+                        f'{[txobj.outputs[k].script.source.hex()[:80] for k in wrong[:3]]}, the independent script encoding '
+                        f'of the same values is {[t["outs"][k][1][:80] for k in wrong[:3]]}')
         run.violation(case, bad, signature={'op': 'build', 'tx': t})
         return
     run.compare('C05.build_raw', case, built, mbuilt)
@@ -894,16 +963,16 @@ BLOB_FIELDS = {'claim_name+pay_pubkey_hash': 'claim', 'claim_name+pay_script_has
 
 
 def gen_sequence(rng):
-    t, _k = gen_tx(rng, 'small')
+    t, _k, _t = gen_tx(rng, 'small')
     while not t['outs']:
-        t, _k = gen_tx(rng, 'small')
+        t, _k, _t = gen_tx(rng, 'small')
     # make sure some outputs come from templates with an editable blob; remember each output's template
     kinds = []
     for o in t['outs']:
-        kind, scr = g_out_script(rng, False)
+        kind, scr, _tpl = g_out_script(rng, False)
         if rng.random() < 0.7:
             while kind not in BLOB_FIELDS:
-                kind, scr = g_out_script(rng, False)
+                kind, scr, _tpl = g_out_script(rng, False)
         o[1] = scr.hex()
         kinds.append(kind)
     p2pkh_in = []
@@ -1086,6 +1155,166 @@ def run_flow(run, model, env, case):
 
 
 
+# ---- two linked in-memory transactions: B takes Input.spend(A.outputs[i]) / A.outputs[i].ref, THEN A changes (output
+# ---- added, field edited in place, signed), then B is serialised: the outpoint in B must name A's CURRENT id
+def dsha(b):
+    return sha256(sha256(b))
+
+
+def check_linked(run, model, case, tx_a, tx_b, links, label):
+    """links: [(index of the input in B, index of the output in A)]"""
+    a_cur = current_fields(tx_a)
+    if not in_range(a_cur) or not tx_a.inputs:
+        return True
+    a_hash = dsha(ref_encode(a_cur))
+    a_id = a_hash[::-1].hex()
+    expect = current_fields(tx_b)
+    for k, i in links:
+        expect['ins'][k][0] = a_hash.hex()
+        expect['ins'][k][1] = i
+    if not in_range(expect):
+        return True
+    built = read_built(tx_b)
+    bad = None
+    if tx_a.id != a_id:
+        bad = f'{label}: A.id is not the reversed double SHA-256 of the reference encoding of A as it is now'
+    elif isinstance(built['raw'], dict):
+        bad = f'{label}: serialising B raised {built["raw"]["err"]}'
+    else:
+        parsed = impl_observe(bytes.fromhex(built['raw']))
+        bad = monitor_build(expect, built, parsed)
+        if bad:
+            wrong = [k for k, i in links if 'err' not in parsed and parsed['ins'][k][0] != a_hash.hex()]
+            bad = (f'{label}: {bad}: B spends outputs of A (current id {a_id}) but the previous-transaction hash written '
+                   f'for input(s) {wrong} is {[bytes.fromhex(parsed["ins"][k][0])[::-1].hex() for k in wrong]}')
+        else:
+            for k, i in links:
+                if tx_b.inputs[k].txo_ref.id != f'{a_id}:{i}' or tx_a.outputs[i].id != f'{a_id}:{i}':
+                    bad = (f'{label}: B.inputs[{k}].txo_ref.id = {tx_b.inputs[k].txo_ref.id}, A.outputs[{i}].id = '
+                           f'{tx_a.outputs[i].id}, expected {a_id}:{i}')
+                    break
+    if bad:
+        run.violation(case, bad, signature={'op': case['op'], 'case': case})
+        return False
+    return run.compare('C05.build_raw', dict(case, where=label), built, model.call('build', tx=expect))
+
+
+def run_link(run, model, case):
+    """case = {'op': 'link', 'a': t, 'b': {'version','locktime','ins': extra rows,'outs'}, 'spend': [[out_i, mode, script, seq]],
+               'at': position of the linked inputs among B's inputs, 'touch_a', 'touch_b', 'changes': [[name, arg]...]}"""
+    if saturated(run):
+        return
+    run.case(case, nontrivial=True, sample=len(json.dumps(case)) < 1500)
+    a, b = case['a'], case['b']
+    tx_a = Transaction(version=a['version'], locktime=a['locktime'])
+    tx_a.add_inputs([mk_input(r) for r in a['ins']])
+    tx_a.add_outputs([Output(amt, OutputScript(bytes.fromhex(scr))) for amt, scr in a['outs']])
+    if case['touch_a']:
+        _touch(tx_a)
+    linked = []
+    for out_i, mode, scr, seq in case['spend']:
+        txo = tx_a.outputs[out_i]
+        if mode == 'spend':
+            linked.append(Input.spend(txo))
+        else:
+            linked.append(Input(txo.ref, InputScript(bytes.fromhex(scr)), seq))
+        run.count('link:mode=' + mode)
+    extra = [mk_input(r) for r in b['ins']]
+    at = min(case['at'], len(extra))
+    tx_b = Transaction(version=b['version'], locktime=b['locktime'])
+    tx_b.add_inputs(extra[:at] + linked + extra[at:])
+    tx_b.add_outputs([Output(amt, OutputScript(bytes.fromhex(scr))) for amt, scr in b['outs']])
+    links = [(at + k, sp[0]) for k, sp in enumerate(case['spend'])]
+    if case['touch_b']:
+        _touch(tx_b)
+        if not check_linked(run, model, case, tx_a, tx_b, links, 'before A changes'):
+            return
+    for step in case['changes']:
+        if step[0] == 'add_out':
+            tx_a.add_outputs([Output(amt, OutputScript(bytes.fromhex(scr))) for amt, scr in step[1]])
+        elif step[0] == 'add_in':
+            tx_a.add_inputs([mk_input(r) for r in step[1]])
+        elif step[0] == 'edit':
+            apply_edit(tx_a, step[1])
+            tx_a._reset()
+        run.count('link:change=' + (step[0] if step[0] != 'edit' else 'edit:' + step[1]['kind']))
+    tx_b._reset()
+    check_linked(run, model, case, tx_a, tx_b, links, 'after A changed')
+
+
+def gen_link(rng):
+    a, _k, _t = gen_tx(rng, 'small')
+    p2pkh = ref_script('pay_pubkey_hash', {'pubkey_hash': rbytes(rng, 20)}).hex()
+    while not a['outs']:
+        a, _k, _t = gen_tx(rng, 'small')
+    b, _k, _t = gen_tx(rng, 'small')
+    spend = []
+    for out_i in rng.sample(range(len(a['outs'])), rng.randrange(1, len(a['outs']) + 1))[:3]:
+        if rng.random() < 0.6:
+            a['outs'][out_i][1] = p2pkh                      # Input.spend insists on pay_pubkey_hash
+            spend.append([out_i, 'spend', '', U32])
+        else:
+            spend.append([out_i, 'ref', rbytes(rng, rng.choice([0, 1, 107])).hex(), g32(rng)])
+    b['ins'] = [r for r in b['ins'] if r[0] != NULL32.hex()][:rng.choice([0, 0, 1, 2])]
+    changes = []
+    for _ in range(rng.choice([1, 1, 2])):
+        c = rng.random()
+        if c < 0.4:
+            changes.append(['add_out', [[g64(rng), rbytes(rng, rng.choice([0, 25, 34])).hex()]]])
+        elif c < 0.5:
+            changes.append(['add_in', [[rbytes(rng, 32).hex(), g32(rng), '', g32(rng)]]])
+        elif c < 0.65:
+            changes.append(['edit', {'kind': 'out_amount', 'i': rng.randrange(len(a['outs'])), 'value': g64(rng)}])
+        elif c < 0.8:
+            changes.append(['edit', {'kind': 'in_seq', 'i': rng.randrange(len(a['ins'])), 'value': g32(rng)}])
+        elif c < 0.9:
+            changes.append(['edit', {'kind': 'locktime', 'value': g32(rng)}])
+        else:
+            free = [i for i in range(len(a['outs'])) if i not in [sp[0] for sp in spend if sp[1] == 'spend']]
+            if free:
+                changes.append(['edit', {'kind': 'out_source', 'i': rng.choice(free), 'value': rbytes(rng, rng.choice([0, 3, 25])).hex()}])
+            else:
+                changes.append(['edit', {'kind': 'version', 'value': g32(rng)}])
+    return {'op': 'link', 'a': a, 'b': b, 'spend': spend, 'at': rng.choice([0, 0, 1, 2]),
+            'touch_a': rng.random() < 0.7, 'touch_b': rng.random() < 0.5, 'changes': changes}
+
+
+def run_chain_flow(run, model, env, case):
+    """the wallet's own chain: coin (parsed) -> A spends it, unsigned -> B spends A's outputs -> A is signed by the
+    real account (new txid) or gets a change output -> B serialised.  case = {'op': 'flow', 'flow': 'chain', 'seed', 'how'}"""
+    if saturated(run):
+        return
+    from lbry.wallet.constants import COIN
+    rng = random.Random(case['seed'])
+    ledger, account, loop = env.ledger, env.account, env.loop
+    run.case(case, nontrivial=True)
+    run.count('flow:chain:' + case['how'])
+    h0, h1 = rng.sample(env.hashes, 2)
+    coin_raw = ref_encode({'version': 1, 'locktime': 0, 'ins': [[rbytes(rng, 32).hex(), 0, '0100', U32]],
+                           'outs': [[10 * COIN, ref_script('pay_pubkey_hash', {'pubkey_hash': h0}).hex()]]})
+    coin = Transaction(coin_raw, height=10)
+    n_out = rng.choice([1, 2, 3])
+    tx_a = Transaction().add_inputs([Input.spend(coin.outputs[0])]).add_outputs(
+        [Output.pay_pubkey_hash(rng.randrange(10 ** 6, COIN), rng.choice([h0, h1])) for _ in range(n_out)])
+    if rng.random() < 0.7:
+        _touch(tx_a)
+    picks = rng.sample(range(n_out), rng.randrange(1, n_out + 1))
+    tx_b = Transaction().add_inputs([Input.spend(tx_a.outputs[i]) for i in picks]).add_outputs(
+        [Output.pay_pubkey_hash(rng.randrange(1000, 10 ** 6), h1)])
+    if rng.random() < 0.5:
+        _touch(tx_b)
+    if case['how'] in ('sign', 'both'):
+        loop.run_until_complete(tx_a.sign([account]))
+    if case['how'] in ('change', 'both'):
+        tx_a.add_outputs([Output.pay_pubkey_hash(rng.randrange(1000, 10 ** 6), h0)])
+    tx_b._reset()
+    links = list(enumerate(picks))
+    if not check_linked(run, model, case, tx_a, tx_b, links, 'chain: after A was finalised (%s)' % case['how']):
+        return
+    loop.run_until_complete(tx_b.sign([account]))
+    check_linked(run, model, case, tx_a, tx_b, links, 'chain: after B was signed too')
+
+
 def wbucket(n):
     for lim in (0, 252, 253, 520, 521, 3600, 65535, 65536):
         if n <= lim:
@@ -1140,6 +1369,25 @@ OUT_OF_RANGE = [('version', 2 ** 32), ('locktime', 2 ** 32), ('index', 2 ** 32),
                 ('amount', 2 ** 64), ('amount', 2 ** 64 + 1), ('version', 2 ** 40), ('sequence', 2 ** 64)]
 
 
+def boundary_template_txs():
+    """deterministic: every template with a variable element, that element being each of SMALL_PUSH (one-byte
+    values 0x00..0x11, 0x4b, 0x80, 0xff ...) and each push-data length boundary; the library builds the output from the
+    template values, the expected script comes from ref_script"""
+    h = bytes(range(32)).hex()
+    fixed = {'pubkey_hash': bytes(range(20)), 'script_hash': bytes(range(1, 21)), 'claim_id': bytes(range(2, 22)),
+             'pubkey': b'\x02' + bytes(range(32)), 'claim_name': b'name', 'claim': b'claim', 'support': b'sup', 'data': b'd'}
+    elements = SMALL_PUSH + [bytes([v]) for v in range(3, 15)] + [b'\x07' * n for n in (75, 76, 255, 256)]
+    for name in sorted(REF_TEMPLATES):
+        var = [f for f in REF_TEMPLATES[name] if f in ('claim_name', 'claim', 'support', 'data')]
+        for f in var:
+            for el in elements:
+                values = {k: fixed[k] for k in REF_TEMPLATES[name] if not isinstance(k, int)}
+                values[f] = el
+                tpl = {'template': name, 'values': {k: v.hex() for k, v in values.items()}}
+                t = {'version': 1, 'locktime': 0, 'ins': [[h, 0, '', U32]], 'outs': [[1000, ref_script(name, values).hex()]]}
+                yield t, [tpl]
+
+
 def out_of_range_txs():
     h = bytes(range(32)).hex()
     for field, v in OUT_OF_RANGE:
@@ -1167,7 +1415,10 @@ def main(run):
         'raw/id/size read in between, output scripts regenerated / amounts, sequences, locktime changed IN PLACE, _reset, '
         're-read) and the daemon channel-create / channel-signed-stream flows with a real account (set_channel_private_key, '
         'Output.sign, Transaction.create(sign=False), Transaction.sign) checked against the reference encoding of the '
-        'fields the object holds at that moment; raw: upstream fixtures, segwit encodings (reference encoder and extracted '
+        'fields the object holds at that moment; link: B takes Input.spend(A.outputs[i]) / A.outputs[i].ref, then A changes (output or '
+        'input added, field edited, signed by the real account), then B is serialised: outpoint hash and txo_ref.id must name A\'s '
+        'current id per the reference encoder; outputs of library-built transactions are built from template VALUES while the '
+        'expected script comes from an independent script builder (one-byte elements 0x00..0x11 included); raw: upstream fixtures, segwit encodings (reference encoder and extracted '
         'model encoder), every truncation and every single-byte overwrite (0/fd/ff) of small transactions, structural mutations (size widening incl. >= 2^63, '
         'marker/flag games, cut-outs, trailing bytes) and random bytes -> Transaction(raw) fields / error class / '
         'id; cs: compact sizes at all powers of two +-1 and random values, and decoding of every 1-byte and (prefix fc..ff) 2-byte string plus random short '
@@ -1186,6 +1437,8 @@ def main(run):
         run_build(run, model, t, 'boundary')
     for t in out_of_range_txs():
         run_build(run, model, t, 'out-of-range')
+    for t, tpls in boundary_template_txs():
+        run_build(run, model, t, 'boundary-template', tpls=tpls)
 
     # ---- compact size
     for n in CS_BOUNDARY:
@@ -1208,12 +1461,12 @@ def main(run):
 
     # ---- generated transactions
     small_valid = []
-    plan = ([('small', vlib.scaled(T, 2000, 30000)), ('many', vlib.scaled(T, 300, 5000)),
+    plan = ([('small', vlib.scaled(T, 1700, 30000)), ('many', vlib.scaled(T, 300, 5000)),
              ('big', vlib.scaled(T, 120, 2000))])
     for size_class, n in plan:
         for _ in range(n):
-            t, kinds = gen_tx(rng, size_class)
-            run_build(run, model, t, 'random-' + size_class, kinds)
+            t, kinds, tpls = gen_tx(rng, size_class)
+            run_build(run, model, t, 'random-' + size_class, kinds, tpls)
             if size_class == 'small' and len(small_valid) < vlib.scaled(T, 300, 3000):
                 small_valid.append(t)
 
@@ -1225,7 +1478,7 @@ def main(run):
         flag = 1 if rng.random() < 0.85 else rng.choice([2, 3, 0x80, 0xff])
         run_segwit(run, model, t, wits, flag, 'random')
     for _ in range(vlib.scaled(T, 10, 200)):
-        t, _k = gen_tx(rng, 'many')
+        t, _k, _t = gen_tx(rng, 'many')
         run_segwit(run, model, t, gen_wits(rng, t), 1, 'random-many')
 
     # ---- operation sequences on one Transaction object (in-place edits, _reset, re-read)
@@ -1233,8 +1486,14 @@ def main(run):
         run_sequence(run, model, gen_sequence(rng))
     # ---- the daemon's channel / signed-stream flows with a real account (set_channel_private_key, Output.sign,
     # ---- Transaction.create(sign=False), Transaction.sign)
+    # ---- two linked transactions: B spends outputs of A, A changes afterwards, B serialised
+    for _ in range(vlib.scaled(T, 300, 6000)):
+        run_link(run, model, gen_link(rng))
     env = Env()
     try:
+        for k in range(vlib.scaled(T, 12, 200)):
+            run_chain_flow(run, model, env, {'op': 'flow', 'flow': 'chain', 'how': rng.choice(['sign', 'sign', 'change', 'both']),
+                                             'seed': rng.getrandbits(48)})
         for k in range(vlib.scaled(T, 40, 600)):
             run_flow(run, model, env, {'op': 'flow', 'flow': rng.choice(['channel', 'stream', 'stream']),
                                        'funding': rng.choice(['exact', 'exact', 'change', 'manual']),
@@ -1274,7 +1533,7 @@ def main(run):
         t, w = ref_decode(raw)
         pool.append((raw, field_offsets(t, w)))
     pool = [p for p in pool if len(p[0]) < 3000]
-    for _ in range(vlib.scaled(T, 7000, 100000)):
+    for _ in range(vlib.scaled(T, 5500, 100000)):
         raw, offs = rng.choice(pool)
         kind, bad = mutate(rng, raw, offs)
         run_raw(run, model, bad, 'mut-' + kind)
@@ -1294,7 +1553,7 @@ def replay(run, case):
     model = mk_model()
     op = case.get('op')
     if op == 'build':
-        run_build(run, model, case['tx'], 'replay')
+        run_build(run, model, case['tx'], 'replay', tpls=case.get('out_tpl'))
     elif op == 'raw':
         run_raw(run, model, bytes.fromhex(case['raw']), case.get('kind', 'replay'), expect_txid=case.get('txid'))
     elif op == 'segwit':
@@ -1305,10 +1564,12 @@ def replay(run, case):
         run_cs_read(run, model, bytes.fromhex(case['s']), 'replay')
     elif op == 'seq':
         run_sequence(run, model, {k: v for k, v in case.items() if k != 'at'})
+    elif op == 'link':
+        run_link(run, model, {k: v for k, v in case.items() if k != 'where'})
     elif op == 'flow':
         env = Env()
         try:
-            run_flow(run, model, env, case)
+            (run_chain_flow if case.get('flow') == 'chain' else run_flow)(run, model, env, case)
         finally:
             env.close()
     model.close()
